@@ -7,7 +7,7 @@ CLAIMED = {
     # id: (level, design_ref, technique, level text, level note)
     "C20": ("exploration", "DESIGN.md §4 C20",
             "bounded-exhaustive enumeration of conversion inputs against an independent calendar / big-integer model",
-            "Every Date and every Date32 day of the documented range in 29 fixed zones at 4 times of day, DateTime seconds (all 2^32 in the thorough tier), a DateTime64 lattice at every precision, wide-integer, IP and interval helpers (intervals also over spans longer than 292 years and across the daylight-saving changes of a real zone) are each evaluated on the real functions and compared with an independent model, and every one of those instants also enters the matching column through each of its ingestion paths (Append, AppendArr, Array, Nullable) with the scalar conversion as oracle; the finite spaces named in the evidence are enumerated completely, nothing is sampled.",
+            "Every Date and every Date32 day of the documented range in 29 fixed zones at 4 times of day, DateTime seconds (all 2^32 in the thorough tier), a DateTime64 lattice at every precision, wide-integer, IP (incl. the special-purpose IPv6 blocks, compared as exact netip.Addr values) and interval helpers (intervals also over spans longer than 292 years and across the daylight-saving changes of a real zone) are each evaluated on the real functions and compared with an independent model, and every one of those instants also enters the matching column through each of its ingestion paths (Append, AppendArr, Array, Nullable) with the scalar conversion as oracle; the finite spaces named in the evidence are enumerated completely, nothing is sampled.",
             "Trusted: Go runtime, math/big; the civil-calendar model (cross-checked against package time for every day enumerated)."),
     "C04": ("model_checking", "DESIGN.md §4 C04, §2 E1/E2",
             "stateless model checking of the real client: preemption-bounded DFS over all schedules of the sender / receiver / cancel-watch / peer goroutines and clock steps, crossed with an exhaustive fault enumeration",
@@ -59,15 +59,15 @@ CLAIMED = {
             "Trusted: refcol / refwire for the exclusion of prefixes that are complete messages."),
     "C11": ("model_checking", "DESIGN.md §4 C11, §2 E1",
             "stateless model checking of the real chpool + puddle + ch.Dial under the controlled scheduler: preemption-bounded DFS over all interleavings of the pool-level steps of 2-3 holder threads, an optional closer thread and the health-check goroutine driven by the fake clock",
-            "Holder programs (ok / exception / transport error / cancelled / repeated Release / Pool.Do / Pool.Ping / two queries; connections whose Close reports an error) in pairs and triples with MaxConns 1 and 2, with and without a concurrent Pool.Close, and health-check scenarios with short idle time and lifetime. Invariants on every execution: one holder per connection (reconstructed from the query ids each simulated connection saw), broken connections never reissued nor written to, open connections <= MaxConns at every dial, repeated Release harmless, every dialled connection closed after Close, idle connections destroyed by the health check. A sweep over 1..130 acquire / release cycles of one connection with a stale repeated Release after each (default schedule) covers every internal handle-slab size. Quick: bound 1 on the scenario list; thorough: bound 2 on ~90.",
+            "Holder programs (ok / exception / transport error / cancelled / repeated Release / Pool.Do / Pool.Ping / Pool.Ping and Pool.Do on a transport that broke while the connection was idle / two queries; connections whose Close reports an error) in pairs and triples with MaxConns 1 and 2, with and without a concurrent Pool.Close, and health-check scenarios with short idle time and lifetime. Invariants on every execution: one holder per connection (reconstructed from the query ids each simulated connection saw), broken connections never reissued nor written to, open connections <= MaxConns at every dial, repeated Release harmless, every dialled connection closed after Close, idle connections destroyed by the health check. A sweep over 1..130 acquire / release cycles of one connection with a stale repeated Release after each (default schedule) covers every internal handle-slab size. Quick: bound 1 on the scenario list; thorough: bound 2 on ~90.",
             "Trusted: puddle v2.2.2 and x/sync semaphore are instrumented at function granularity (their internal mutex operations are scheduling points, their internal data races are not C12's subject); what a holder does on its own connection is a quiet region whose privacy the connection log would contradict."),
     "C14": ("model_checking", "DESIGN.md §4 C14",
             "explicit-state enumeration of all operation sequences of the vectored writer up to a depth against a pending-bytes reference model, with full private-state fingerprints",
-            "All 13^6 (thorough 13^7) sequences over {ChainBuffer 0/1/3/70 bytes or exactly the free capacity, ChainWrite 0/1/5 bytes, Flush to an accepting / failing-after-0,1,4 / short-writing writer} x initial capacity {0, 64, 1024, 4096}, every byte position-unique: each Flush must deliver exactly the pending bytes (a prefix on failure) and nothing twice. Path equivalence WriteBlock = EncodeBlock is checked for every C01 case.",
+            "All 13^6 (thorough 13^7) sequences over {ChainBuffer 0/1/3/70 bytes or exactly the free capacity, ChainWrite 0/1/5 bytes, Flush to an accepting / failing-after-0,1,4 / short-writing writer} x initial capacity {0, 64, 1024, 4096}, every byte position-unique: each Flush must deliver exactly the pending bytes (a prefix on failure) and nothing twice. Path equivalence WriteBlock = EncodeBlock is checked for every C01 case and on a corpus of stateful and long-string columns, WriteColumn = EncodeColumn for every base column at nine row counts around 256 / 1024 / 4096 / 8192.",
             "Trusted: none beyond the Go runtime."),
     "C15": ("exploration", "DESIGN.md §4 C15, §2 E5",
             "differential execution of one exhaustive enumeration in two builds (default and -tags purego) with line-by-line transcript comparison",
-            "35 two-variant codecs x {all 256 / 65536 values for 1- and 2-byte elements, boundary patterns otherwise} x {fresh, reset-after-use} target x decode (whole input and every truncation) x 65535 / 65536 / 65537 rows and > 1 MiB of data per codec x the column read twice from one reader (plain and inside LZ4 / None / split ZSTD frames) x encode into buffers pre-filled with 0..9 bytes x WriteColumn+Flush (after buffered bytes; twice on a writer created over a non-empty buffer); each build also checks encode(decode(x)) = x itself.",
+            "35 two-variant codecs x {all 256 / 65536 values for 1- and 2-byte elements, boundary patterns otherwise} x {fresh, reset-after-use} target x decode (whole input, every truncation of short inputs, the truncations of long inputs at both ends and at the 4096 / 65536 / 1 MiB steps) x 65535 / 65536 / 65537 rows and > 1 MiB of data per codec x the column read twice from one reader (plain and inside LZ4 / None / split ZSTD frames) x encode into buffers pre-filled with 0..9 bytes x WriteColumn+Flush (after buffered bytes; twice on a writer created over a non-empty buffer); each build also checks encode(decode(x)) = x itself.",
             "Trusted: the driver's transcript comparison. Bool is fed only bytes both builds accept (0 / 1)."),
     "C16": ("model_checking", "DESIGN.md §4 C16",
             "explicit-state breadth-first search over operation histories on the real column objects, deduplicated by a fingerprint of every (also unexported) field, against a list-of-values reference model",
@@ -75,15 +75,15 @@ CLAIMED = {
             "Trusted: refcol; the successor of a state is built by replaying its path on a fresh object."),
     "C17": ("exploration", "DESIGN.md §4 C17",
             "bounded-exhaustive enumeration of message field vectors x revisions, byte-for-byte comparison with the independent reference encoder and decode-back comparison",
-            "9 message kinds with <= 2 deviating fields over per-field alphabets (the one-byte trace flags over all 256 values) x the threshold-neighbour revision set (thorough: every revision 50000..54500): library bytes = reference bytes, decode gives the message as far as the revision carries it, no unread bytes.",
+            "9 message kinds with <= 2 deviating fields over per-field alphabets (the one-byte trace flags over all 256 values; strings of 1 MiB / 1 MiB + 1 / 2 MiB + 5 bytes in every string field, one at a time) x the threshold-neighbour revision set (thorough: every revision 50000..54500): library bytes = reference bytes, decode gives the message as far as the revision carries it, no unread bytes.",
             "Trusted: refwire (thresholds from ProtocolDefines.h)."),
     "C18": ("exploration", "DESIGN.md §4 C18",
             "bounded-exhaustive enumeration of (block schema, target list, row count) and of block pairs, with a reference compatibility predicate as oracle",
-            "Schemas of 0..2 (3) columns over 24 kinds x 2 row counts x ~60 target variants (permutations, renames, blank names, missing / extra, every kind swap, Auto, none), block pairs against the same typed or inferred targets, and block triples (a changed block offered twice; the first schema again) against explicit ColAuto targets: accept / reject must match the predicate, accepted targets — read back as values of the block's type — hold exactly their column and report the block's precision / enum definition as adopted, rejected decodes leave no foreign data.",
+            "Schemas of 0..2 (3) columns over 29 kinds (incl. containers of inferable elements next to containers whose type strings those elements' own Infer tolerates) x 2 row counts x ~60 target variants (permutations, renames, blank names, missing / extra, every kind swap, Auto, none), block pairs against the same typed or inferred targets, and block triples (a changed block offered twice; the first schema again) against explicit ColAuto targets: accept / reject must match the predicate, accepted targets — read back as values of the block's type — hold exactly their column and report the block's precision / enum definition as adopted, rejected decodes leave no foreign data.",
             "Trusted: the predicate (same base; enum <-> integer; enums and timestamps adopt the server's parameters; FixedString width must match; wrappers element-wise; a name-based enum target needs an enum block; Auto applies where ColAuto.Infer accepts)."),
     "C19": ("exploration", "DESIGN.md §4 C19",
             "bounded-exhaustive enumeration of type strings (well-formed grammar to depth 2/3 with legal and illegal parameters; all token strings up to length 5/6 over a 25-token alphabet; every single edit of the well-formed types; all character strings up to length 5/6 over a 9-character alphabet as parameter lists of every parameterised family; depth-10000 nesting) and of all ordered pairs for the compatibility relation",
-            "Infer must not panic; when it accepts (on a fresh ColAuto, and on one with a history Infer(A), [refused Infer(X)], Infer(B) over a 30-type set), the inferred type must not conflict with the request and a block written by the reference codec must decode to the written values; Conflicts must be reflexive and symmetric on all ~10^7 ordered pairs and agree with the documented equivalences.",
+            "Infer must not panic; when it accepts (on a fresh ColAuto, and on one with a history Infer(A), [refused Infer(X)], Infer(B) over a 30-type set), the inferred type must not conflict with the request and a block written by the reference codec must decode to the written values (Nullable types also with zero bytes in the masked slots of NULL rows); Conflicts must be reflexive and symmetric on all ~10^7 ordered pairs and agree with the documented equivalences.",
             "Trusted: refcol for the soundness decode (types it does not know are checked for totality only)."),
 }
 
